@@ -363,3 +363,446 @@ Proof.
   { exists c5. split; [exact Hr5|]. split; [split; assumption|]. intros _ _. apply subN_0. }
   destruct (negb err2 && (ST_HELO_FAIL_LO <=? sh)%Z && (sh <=? ST_HELO_FAIL_HI)%Z); apply (Hneg _ _ c5 Hr5); split; assumption.
 Qed.
+
+(* ------------------------------------------------------------------ quitmsg, shutdown *)
+Lemma Rel_closed k s c : Rel k s c -> Rel k (set_conn false false s) c.
+Proof.
+  intros [Ht (Hx & Hrc & Hlen & _)]. split; [exact Ht|].
+  unfold Inv. cbn. repeat split; assumption.
+Qed.
+
+Lemma quit_loop_ok k fuel : forall s c,
+  Rel k s c -> s_sock s = true ->
+  ok_res k (fun _ s' _ => s_sock s' = true) (quit_loop fuel s).
+Proof.
+  induction fuel as [|fuel IH]; intros s c Hr Hsock; cbn [quit_loop]; [exact (Rel_Tr _ _ _ Hr)|].
+  eapply ok_bind; [apply nread_ok; eassumption|].
+  intros it s1 c1 Hr1 (_ & Hs1 & _ & _).
+  destruct it as [l| | | | |]; try (exists c1; split; [exact Hr1|exact Hs1]).
+  destruct (Nat.leb 4 (length l) && N.eqb (nth 3 l 0%N) DASH).
+  - apply (IH _ c1); [apply Rel_set_linein; exact Hr1|exact Hs1].
+  - exists c1. split; [apply Rel_set_linein; exact Hr1|exact Hs1].
+Qed.
+
+Definition closed_post (_ : unit) (s' : st) (_ : cst) : Prop := s_sock s' = false.
+
+Lemma quitmsg_ok k s c :
+  Rel k s c -> s_sock s = true -> ok_res k closed_post (quitmsg s).
+Proof.
+  intros Hr Hsock. unfold quitmsg.
+  assert (Hr0 : Rel k (nwrite ST_CMD_QUIT s) c) by (apply nwrite_ok; [exact Hr|exact Hsock|reflexivity]).
+  eapply ok_bind; [apply (quit_loop_ok k _ _ c Hr0 Hsock)|].
+  intros u s1 c1 Hr1 _. rewrite fix_route.
+  exists c1. split; [apply Rel_closed; exact Hr1|reflexivity].
+Qed.
+
+Lemma shutdown_clean_ok {A} k s c (P : A -> st -> cst -> Prop) :
+  Rel k s c -> ok_res k P (shutdown_clean s).
+Proof.
+  intros Hr. unfold shutdown_clean. destruct (s_sock s) eqn:Es; [|exact (Rel_Tr _ _ _ Hr)].
+  pose proof (quitmsg_ok k s c Hr Es) as H.
+  destruct (quitmsg s) as [u s1|s1|s1]; cbn [ok_res] in *; [|exact H|exact H].
+  destruct H as (c1 & Hr1 & _). exact (Rel_Tr _ _ _ Hr1).
+Qed.
+
+Lemma shutdown_abort_ok {A} k s c (P : A -> st -> cst -> Prop) :
+  Rel k s c -> ok_res k P (shutdown_abort s).
+Proof. intros Hr. exact (Rel_Tr k _ c (Rel_closed k s c Hr)). Qed.
+
+Lemma quitmsg_if_net_ok k err s c :
+  Rel k s c -> s_sock s = true -> ok_res k closed_post (quitmsg_if_net err s).
+Proof.
+  intros Hr Hsock. unfold quitmsg_if_net. destruct (closes_socket err); [|now apply (quitmsg_ok k s c)].
+  rewrite fix_free_ssl. exists c. split; [apply Rel_closed; exact Hr|reflexivity].
+Qed.
+
+Lemma connection_died_ok k s c :
+  Rel k s c -> s_sock s = true -> kind (x_ph c) = 1 -> Rel k (connection_died s) c /\ s_sock (connection_died s) = false.
+Proof.
+  intros [Ht (Hx & Hrc & Hlen & Hp)] Hsock Hk. rewrite Hsock in Hp.
+  destruct (x_ph c); try discriminate. destruct Hp as [Hssl _].
+  split; [|reflexivity]. split; [exact Ht|]. unfold Inv. cbn. repeat split; assumption.
+Qed.
+
+(** what the callers of quitmsg & co. do with the result *)
+Lemma next_ok k (m : res unit) :
+  ok_res k closed_post m ->
+  ok_res k (fun (ok : bool) s' c' => if ok then s_sock s' = true /\ can_write c' else s_sock s' = false)
+    (rdo (_, s') <- m; Ret false s').
+Proof.
+  intros H. eapply ok_bind; [exact H|]. intros u s' c' Hr' Hp. exists c'. split; [exact Hr'|exact Hp].
+Qed.
+
+(* ------------------------------------------------------------------ data_pending *)
+Lemma data_pending_ok k early s c :
+  Rel k s c -> s_sock s = true -> x_ph c = PClear ->
+  Rel k (snd (data_pending early s)) c /\ s_sock (snd (data_pending early s)) = true /\
+  (fst (data_pending early s) = 0%Z -> s_inn (snd (data_pending early s)) = []).
+Proof.
+  intros Hr Hsock Hph. pose proof LB as HLB. unfold data_pending.
+  destruct (s_inn s) as [|x i] eqn:Ei.
+  2:{ cbn [fst snd]. split; [exact Hr|]. split; [exact Hsock|discriminate]. }
+  destruct Hr as [Ht (Hx & Hrc & Hlen & Hp)]. rewrite Hsock, Hph in Hp. destruct Hp as [Hssl Htls].
+  assert (Hset : forall b e, Rel k (set_clr [b] e s) c).
+  { intros b e. split; [exact Ht|]. unfold Inv. cbn. rewrite Hsock, Hph. repeat split; try assumption. lia. }
+  assert (Hsame : Rel k s c).
+  { split; [exact Ht|]. unfold Inv. rewrite Hsock, Hph. repeat split; try assumption. }
+  destruct (cur (s_clr s)) as [|b c'].
+  - destruct early.
+    + destruct (next_segment (future (s_clr s))) as [[[|b c'] f]|]; cbn [fst snd].
+      * split; [exact Hsame|]. split; [exact Hsock|discriminate].
+      * split; [apply Hset|]. split; [exact Hsock|discriminate].
+      * split; [exact Hsame|]. split; [exact Hsock|discriminate].
+    + cbn [fst snd]. split; [exact Hsame|]. split; [exact Hsock|]. intros _. exact Ei.
+  - cbn [fst snd]. split; [apply Hset|]. split; [exact Hsock|discriminate].
+Qed.
+
+(* ------------------------------------------------------------------ tls_init *)
+Lemma tls_reply_loop_ok k fuel : forall i s c,
+  Rel k s c -> s_sock s = true ->
+  ok_res k (fun _ s' c' => loop_post c s' c') (tls_reply_loop fuel i s).
+Proof.
+  induction fuel as [|fuel IH]; intros i s c Hr Hsock; cbn [tls_reply_loop].
+  { destruct ((0 <? i)%Z && dash3 s); [exact (Rel_Tr _ _ _ Hr)|].
+    exists c. split; [exact Hr|]. split; [apply keeps_refl|exact Hsock]. }
+  destruct ((0 <? i)%Z && dash3 s).
+  2:{ exists c. split; [exact Hr|]. split; [apply keeps_refl|exact Hsock]. }
+  eapply ok_bind; [apply netget0_ok; eassumption|].
+  intros t s1 c1 Hr1 (Hk1 & Hs1 & _).
+  destruct (negb (Z.eqb i t)).
+  - exists c1. split; [exact Hr1|]. split; assumption.
+  - eapply ok_weaken; [apply (IH i s1 c1 Hr1 Hs1)|].
+    intros r s' c' _ (Hk' & Hs'). split; [eapply keeps_trans; eassumption|exact Hs'].
+Qed.
+
+(** what is left of tlsa_usable says whether a usable record exists *)
+Lemma filter_usable_le t : length (filter usable_rec t) <= count_usable t.
+Proof.
+  unfold count_usable. induction t as [|[u r] t IH]; simpl; [lia|].
+  unfold usable_rec at 1. cbn [fst snd]. destruct (usage_usable u); simpl; [|exact IH].
+  destruct (0 <? r)%Z; simpl; lia.
+Qed.
+
+Lemma dane_add_spec t : forall n u,
+  count_usable t <= n -> dane_add t n = Some u ->
+  u = (n - count_usable t) + length (filter usable_rec t).
+Proof.
+  induction t as [|[us r] t IH]; intros n u Hn H; cbn [dane_add] in H.
+  { inversion H. unfold count_usable. simpl. lia. }
+  unfold count_usable in *. cbn [filter fst] in *. unfold usable_rec at 1. cbn [fst snd].
+  destruct (usage_usable us) eqn:Eu; cbn [negb andb length] in *.
+  2:{ apply IH; assumption. }
+  destruct (r <? 0)%Z eqn:Eneg; [discriminate|].
+  destruct (Z.eqb r 0) eqn:Ez.
+  - apply Z.eqb_eq in Ez. subst r. rewrite Z.ltb_irrefl.
+    destruct (Nat.eqb (n - 1) 0) eqn:En.
+    + apply Nat.eqb_eq in En. inversion H. subst u.
+      pose proof (filter_usable_le t) as Hle. unfold count_usable in Hle. lia.
+    + apply Nat.eqb_neq in En. rewrite (IH (n - 1) u); [lia|lia|exact H].
+  - apply Z.eqb_neq in Ez. apply Z.ltb_ge in Eneg.
+    replace (0 <? r)%Z with true by (symmetry; apply Z.ltb_lt; lia). cbn [length].
+    rewrite (IH n u); [lia|lia|exact H].
+Qed.
+
+Lemma existsb_filter {A} (f : A -> bool) l : Nat.ltb 0 (length (filter f l)) = existsb f l.
+Proof. induction l as [|x l IH]; simpl; [reflexivity|]. destruct (f x); simpl; [reflexivity|exact IH]. Qed.
+
+Lemma usable_spec t u :
+  (if Nat.eqb (count_usable t) 0 then Some 0 else dane_add t (count_usable t)) = Some u ->
+  Nat.ltb 0 u = existsb usable_rec t.
+Proof.
+  intros H. rewrite <- existsb_filter. pose proof (filter_usable_le t) as Hle.
+  destruct (Nat.eqb (count_usable t) 0) eqn:E.
+  - apply Nat.eqb_eq in E. inversion H. subst u. replace (length (filter usable_rec t)) with 0 by lia. reflexivity.
+  - rewrite (dane_add_spec t _ u (le_n _) H). rewrite Nat.sub_diag. reflexivity.
+Qed.
+
+Lemma Rel_report k s c w : Rel k s c -> Rel k (report w s) c.
+Proof. intros H. exact H. Qed.
+
+Lemma Rel_log_gen k s s' c e c' :
+  s_tr s' = s_tr s ++ [e] -> steps k cst0 (s_tr s) = Some c -> step k c e = Some c' -> Inv k s' c' -> Rel k s' c'.
+Proof.
+  intros Htr Ht Hs Hi. split; [|exact Hi].
+  rewrite Htr, steps_app, Ht. cbn [steps]. now rewrite Hs.
+Qed.
+
+Lemma kind1 p : kind p = 1 -> p = PClear.
+Proof. destruct p; simpl; intros H; try discriminate; reflexivity. Qed.
+
+Definition tls_post (c : cst) (cn : conn) (r : Z) (s' : st) (c' : cst) : Prop :=
+  x_k c' = x_k c /\ s_sock s' = true /\
+  (r = 0%Z -> kind (x_ph c') = 3 /\ (need_verify cn = true -> x_vfy c' = true)).
+
+Lemma tls_init_ok k cn s c :
+  Rel k s c -> s_sock s = true -> x_ph c = PClear -> conn_of k (x_k c) = cn ->
+  ok_res k (tls_post c cn) (tls_init cn (own_tlsa cn) s).
+Proof.
+  intros Hr Hsock Hph Hcn. pose proof LB as HLB. unfold tls_init.
+  assert (Hfail : forall s' c' r, Rel k s' c' -> x_k c' = x_k c -> s_sock s' = true -> r <> 0%Z ->
+            ok_res k (tls_post c cn) (Ret r s')).
+  { intros s' c' r Hr' Hk' Hs' Hnz. exists c'. split; [exact Hr'|]. split; [exact Hk'|]. split; [exact Hs'|].
+    intros H0. contradiction. }
+  assert (Hnz : forall i : Z, (if (i <? 0)%Z then (- i)%Z else Z.of_N ST_EDONE) <> 0%Z).
+  { intros i. destruct (i <? 0)%Z eqn:E; [apply Z.ltb_lt in E; lia|discriminate]. }
+  destruct (pinned cn && negb (c_pinload cn)).
+  { apply (Hfail _ c); [apply Rel_report; exact Hr|reflexivity|exact Hsock|discriminate]. }
+  set (s0 := log (EvCert (s_rcert s)) s).
+  assert (Hr0 : Rel k s0 c).
+  { apply (Rel_log k s c _ c (proj1 Hr)); [|exact (proj2 Hr)].
+    cbn [step]. rewrite Hph. destruct Hr as [_ (_ & Hrc & _)]. rewrite Hrc.
+    now rewrite Bool.eqb_reflx. }
+  assert (Hs0 : s_sock s0 = true) by exact Hsock.
+  destruct (if Nat.eqb (count_usable (own_tlsa cn)) 0 then Some 0 else dane_add (own_tlsa cn) (count_usable (own_tlsa cn)))
+    as [usable|] eqn:Eu.
+  2:{ apply (Hfail _ c); [apply Rel_report; exact Hr0|reflexivity|exact Hs0|discriminate]. }
+  assert (Hr1 : Rel k (nwrite ST_CMD_STARTTLS s0) c).
+  { apply nwrite_ok; [exact Hr0|exact Hs0|]. intros E. rewrite Hph in E. discriminate. }
+  eapply ok_bind; [apply (netget0_ok k _ c Hr1 Hs0)|].
+  intros i0 s1 c1 Hr2 (Hk1 & Hs1 & _).
+  eapply ok_bind; [apply (tls_reply_loop_ok k _ i0 s1 c1 Hr2 Hs1)|].
+  intros i s2 c2 Hr3 (Hk2 & Hs2).
+  assert (Hk02 : keeps c c2) by (eapply keeps_trans; eassumption).
+  assert (Hxk : x_k c2 = x_k c) by apply Hk02.
+  assert (Hph2 : x_ph c2 = PClear).
+  { apply kind1. destruct Hk02 as (_ & _ & Hkk & _). rewrite Hkk, Hph. reflexivity. }
+  destruct (negb (Z.eqb i ST_STARTTLS_OK)).
+  { apply (Hfail _ c2); [exact Hr3|exact Hxk|exact Hs2|apply Hnz]. }
+  rewrite fix_pending.
+  destruct (data_pending_ok k (c_early cn) s2 c2 Hr3 Hs2 Hph2) as (Hr4 & Hs3 & Hp0).
+  destruct (data_pending (c_early cn) s2) as [p s3]. cbn [fst snd] in *.
+  destruct (negb (Z.eqb p 0)) eqn:Ep.
+  { apply (Hfail _ c2); [exact Hr4|exact Hxk|exact Hs3|apply Hnz]. }
+  apply negb_false_iff, Z.eqb_eq in Ep. specialize (Hp0 Ep).
+  destruct Hr4 as [Ht4 (Hx4 & Hrc4 & Hlen4 & Hp4)]. rewrite Hs3, Hph2 in Hp4. destruct Hp4 as [Hssl4 Htls4].
+  rewrite Hxk, Hcn in Htls4.
+  set (T := tls_stream cn) in *.
+  set (sb := set_clr (s_inn s3) {| cur := []; future := c_post cn |} s3).
+  assert (Hstep : step k c2 (EvHs (length (s_inn s3)) (c_hs cn)) =
+                  Some (mkC (x_k c2) (if N.eqb (c_hs cn) 0 then PTls (length T) else PFailed) false 0)).
+  { cbn [step]. rewrite Hph2, Hp0. cbn [length Nat.eqb negb]. rewrite Hxk, Hcn. reflexivity. }
+  destruct (N.eqb (c_hs cn) 0) eqn:Ehs; cbn [negb].
+  2:{ (* the handshake failed *)
+    apply (Hfail _ (mkC (x_k c2) PFailed false 0)); [|exact Hxk|exact Hs3|].
+    - apply (Rel_log k sb c2 _ _ Ht4 Hstep).
+      unfold Inv, sb. cbn. rewrite Hs3. repeat split; try assumption.
+      rewrite Hxk, Hcn. exact Htls4.
+    - apply N.eqb_neq in Ehs. intros H0. apply Ehs. lia. }
+  (* inside TLS now *)
+  set (s5 := set_conn true (s_sock (log (EvHs (length (s_inn s3)) (c_hs cn)) sb)) (log (EvHs (length (s_inn s3)) (c_hs cn)) sb)).
+  set (c5 := mkC (x_k c2) (PTls (length T)) false 0).
+  assert (HI5 : forall v, Inv k s5 (mkC (x_k c2) (PTls (length T)) v 0)).
+  { intros v. unfold Inv, s5, sb. cbn. rewrite Hs3. repeat split; try assumption.
+    - unfold avail, chan. cbn. rewrite Hp0, Htls4. reflexivity.
+    - exists []. rewrite Hxk, Hcn, Hp0. cbn. fold T. symmetry. exact Htls4. }
+  assert (Hr5 : Rel k s5 c5).
+  { apply (Rel_log_gen k sb s5 c2 _ c5 eq_refl Ht4 Hstep). apply HI5. }
+  assert (Hs5 : s_sock s5 = true) by exact Hs3.
+  destruct (pinned cn || Nat.ltb 0 usable) eqn:Env.
+  - set (c6 := mkC (x_k c2) (PTls (length T)) (N.eqb (c_verify cn) 0) 0).
+    assert (Hr6 : Rel k (log (EvVfy (c_verify cn)) s5) c6).
+    { apply (Rel_log k s5 c5 _ c6 (proj1 Hr5)); [reflexivity|apply HI5]. }
+    destruct (negb (N.eqb (c_verify cn) 0)) eqn:Ev.
+    + apply (Hfail _ c6); [exact Hr6|exact Hxk|exact Hs5|discriminate].
+    + exists c6. split; [exact Hr6|]. split; [exact Hxk|]. split; [exact Hs5|].
+      intros _. split; [reflexivity|]. intros _. cbn. now apply negb_false_iff in Ev.
+  - exists c5. split; [exact Hr5|]. split; [exact Hxk|]. split; [exact Hs5|].
+    intros _. split; [reflexivity|]. intros Hnv. unfold need_verify in Hnv.
+    rewrite <- (usable_spec _ _ Eu), Env in Hnv. discriminate.
+Qed.
+
+(* ------------------------------------------------------------------ connect_mx *)
+Lemma banner_loop_ok k fuel : forall sc fe s c,
+  Rel k s c -> s_sock s = true ->
+  ok_res k (fun _ s' c' => loop_post c s' c') (banner_loop fuel sc fe s).
+Proof.
+  induction fuel as [|fuel IH]; intros sc fe s c Hr Hsock; cbn [banner_loop].
+  { destruct (dash3 s); [exact (Rel_Tr _ _ _ Hr)|].
+    exists c. split; [exact Hr|]. split; [apply keeps_refl|exact Hsock]. }
+  destruct (dash3 s).
+  2:{ exists c. split; [exact Hr|]. split; [apply keeps_refl|exact Hsock]. }
+  eapply ok_bind; [apply netget0_ok; eassumption|].
+  intros t s1 c1 Hr1 (Hk1 & Hs1 & _).
+  destruct (Z.eqb t (neg ST_ECONNRESET)).
+  - exists c1. split; [exact Hr1|]. split; assumption.
+  - destruct (0 <? t)%Z.
+    + eapply ok_weaken; [apply (IH sc _ s1 c1 Hr1 Hs1)|].
+      intros r s' c' _ (Hk' & Hs'). split; [eapply keeps_trans; eassumption|exact Hs'].
+    + exists c1. split; [exact Hr1|]. split; assumption.
+Qed.
+
+Definition iter_post (ok : bool) (s' : st) (c' : cst) : Prop :=
+  if ok then s_sock s' = true /\ can_write c' else s_sock s' = false.
+
+Lemma own_tlsa_nil_no_verify cn : pinned cn = false -> length (own_tlsa cn) = 0 -> need_verify cn = false.
+Proof.
+  intros Hp Hl. unfold need_verify. rewrite Hp. destruct (own_tlsa cn); [reflexivity|discriminate].
+Qed.
+
+Lemma conn_iter_ok k i cn s c :
+  Rel k s c -> s_sock s = false -> i < length (k_conns k) -> conn_of k i = cn ->
+  ok_res k iter_post (conn_iter i cn (own_tlsa cn) s).
+Proof.
+  intros Hr Hsock Hi Hcn. unfold conn_iter.
+  set (c0 := mkC i PClear false 0).
+  set (s0 := log (EvConn i) (open_conn cn s)).
+  assert (Hr0 : Rel k s0 c0).
+  { destruct Hr as [Ht (Hx & Hrc & Hlen & Hp)]. rewrite Hsock in Hp.
+    apply (Rel_log k (open_conn cn s) c _ c0 Ht).
+    - cbn [step]. replace (Nat.ltb i (length (k_conns k))) with true; [reflexivity|].
+      symmetry. now apply Nat.ltb_lt.
+    - unfold Inv, open_conn. cbn. repeat split; try assumption.
+      rewrite Hcn. unfold rest, tls_stream. reflexivity. }
+  assert (Hs0 : s_sock s0 = true) by reflexivity.
+  assert (Hnext : forall m, ok_res k closed_post m -> ok_res k iter_post (rdo (_, s') <- m; Ret false s')).
+  { intros m Hm. eapply ok_bind; [exact Hm|]. intros u s' c' Hr' Hp. exists c'. split; [exact Hr'|exact Hp]. }
+  eapply ok_bind; [apply (netget0_ok k s0 c0 Hr0 Hs0)|].
+  intros sc0 s1 c1 Hr1 (Hk1 & Hs1 & _).
+  assert (Hkind1 : kind (x_ph c1) = 1) by (destruct Hk1 as (_ & _ & Hkk & _); exact Hkk).
+  destruct ((sc0 <? 0)%Z && Z.eqb sc0 (neg ST_ECONNRESET)).
+  { destruct (connection_died_ok k s1 c1 Hr1 Hs1 Hkind1) as (Hrd & Hsd).
+    exists c1. split; [exact Hrd|exact Hsd]. }
+  destruct ((sc0 <? 0)%Z && Z.eqb sc0 (neg ST_EINVAL)).
+  { apply Hnext. now apply (quitmsg_ok k s1 c1). }
+  destruct (sc0 <? 0)%Z.
+  { now apply (shutdown_abort_ok k s1 c1). }
+  eapply ok_bind; [apply (banner_loop_ok k _ sc0 false s1 c1 Hr1 Hs1)|].
+  intros [sc flagerr] s2 c2 Hr2 (Hk2 & Hs2).
+  assert (Hk02 : keeps c0 c2) by (eapply keeps_trans; eassumption).
+  assert (Hkind2 : kind (x_ph c2) = 1) by (destruct Hk02 as (_ & _ & Hkk & _); exact Hkk).
+  destruct (Z.eqb sc (neg ST_ECONNRESET)).
+  { destruct (connection_died_ok k s2 c2 Hr2 Hs2 Hkind2) as (Hrd & Hsd).
+    exists c2. split; [exact Hrd|exact Hsd]. }
+  destruct (negb (Z.eqb sc ST_GREETING_OK) || flagerr).
+  { apply Hnext. now apply (quitmsg_if_net_ok k sc s2 c2). }
+  eapply ok_bind; [apply (greeting_ok k s2 c2 Hr2 Hs2); left; exact Hkind2|].
+  intros g s3 c3 Hr3 ((Hk3 & Hs3) & _).
+  assert (Hk03 : keeps c0 c3) by (eapply keeps_trans; eassumption).
+  assert (Hkind3 : kind (x_ph c3) = 1) by (destruct Hk03 as (_ & _ & Hkk & _); exact Hkk).
+  assert (Hph3 : x_ph c3 = PClear) by (apply kind1; exact Hkind3).
+  assert (Hxk3 : x_k c3 = i) by (destruct Hk03 as (Hkk & _); exact Hkk).
+  destruct (g <? 0)%Z.
+  { apply Hnext. now apply (quitmsg_if_net_ok k g s3 c3). }
+  destruct (negb (N.eqb (N.land (Z.to_N g) ST_ESMTP_STARTTLS) 0)).
+  - (* STARTTLS offered *)
+    assert (Hcn3 : conn_of k (x_k c3) = cn) by (rewrite Hxk3; exact Hcn).
+    eapply ok_bind; [apply (tls_init_ok k cn s3 c3 Hr3 Hs3 Hph3 Hcn3)|].
+    intros r s4 c4 Hr4 (Hxk4 & Hs4 & Hr0').
+    destruct (r <? 0)%Z.
+    { now apply (shutdown_clean_ok k s4 c4). }
+    destruct (negb (Z.eqb r 0)) eqn:Er.
+    { apply Hnext. now apply (quitmsg_if_net_ok k _ s4 c4). }
+    apply negb_false_iff, Z.eqb_eq in Er. destruct (Hr0' Er) as (Hkind4 & Hvfy4).
+    eapply ok_bind; [apply (greeting_ok k s4 c4 Hr4 Hs4); right; exact Hkind4|].
+    intros g2 s5 c5 Hr5 ((Hk5 & Hs5) & Hext5).
+    destruct (g2 <? 0)%Z eqn:Eg2.
+    { apply Hnext. now apply (quitmsg_if_net_ok k g2 s5 c5). }
+    assert (Hg2 : (0 <=? g2)%Z = true) by (apply Z.leb_le; apply Z.ltb_ge in Eg2; exact Eg2).
+    specialize (Hext5 Hg2 Hkind4).
+    destruct Hk5 as (Hxk5 & Hvfy5 & Hkind5 & _).
+    destruct Hr5 as [Ht5 HI5]. pose proof HI5 as (_ & _ & _ & Hp5). rewrite Hs5 in Hp5.
+    destruct (x_ph c5) as [| | |prev] eqn:Eph5; try (rewrite Hkind4 in Hkind5; discriminate).
+    destruct Hp5 as (Hssl5 & _).
+    exists c5. split.
+    + apply (Rel_log k s5 c5 _ c5 Ht5); [|exact HI5].
+      cbn [step]. rewrite Eph5, Hssl5. cbn [negb orb].
+      rewrite Hxk5, Hxk4, Hxk3, Hcn.
+      destruct (need_verify cn) eqn:Env.
+      * rewrite Hvfy5, (Hvfy4 eq_refl). cbn [negb andb orb].
+        unfold subN in Hext5. rewrite Hext5, N.eqb_refl. reflexivity.
+      * cbn [andb orb]. unfold subN in Hext5. rewrite Hext5, N.eqb_refl. reflexivity.
+    + split; [exact Hs5|]. right. rewrite Eph5. reflexivity.
+  - (* no STARTTLS *)
+    destruct (s_xtls s3) eqn:Ext.
+    { apply Hnext. now apply (quitmsg_ok k s3 c3). }
+    destruct (Nat.ltb 0 (length (own_tlsa cn))) eqn:Etl.
+    { apply Hnext. now apply (quitmsg_ok k s3 c3). }
+    rewrite fix_pinned. cbn [andb].
+    destruct (pinned cn) eqn:Epin.
+    { apply Hnext. now apply (quitmsg_ok k s3 c3). }
+    destruct Hr3 as [Ht3 HI3]. pose proof HI3 as (Hx3 & _ & _ & Hp3). rewrite Hs3, Hph3 in Hp3.
+    destruct Hp3 as (Hssl3 & _).
+    exists c3. split.
+    + apply (Rel_log k s3 c3 _ c3 Ht3); [|exact HI3].
+      cbn [step]. rewrite Hph3, Hssl3, Hxk3, Hcn, <- Hx3, Ext.
+      rewrite (own_tlsa_nil_no_verify cn Epin); [reflexivity|].
+      apply Nat.ltb_ge in Etl. lia.
+    + split; [exact Hs3|]. left. exact Hkind3.
+Qed.
+
+Lemma skipn_cons_nth {A} (l : list A) : forall i x t d,
+  skipn i l = x :: t -> nth i l d = x /\ skipn (S i) l = t /\ i < length l.
+Proof.
+  induction l as [|y l IH]; intros i x t d H.
+  - destruct i; discriminate.
+  - destruct i as [|i].
+    + simpl in H. inversion H; subst. simpl. repeat split. lia.
+    + simpl in H. destruct (IH i x t d H) as (H1 & H2 & H3). simpl. repeat split; [exact H1|exact H2|lia].
+Qed.
+
+Lemma connect_mx_ok k :
+  (forall cn, In cn (k_conns k) -> own_tlsa cn = tlsa_eff (k_conns k)) ->
+  forall todo i s c, todo = skipn i (k_conns k) -> Rel k s c -> s_sock s = false ->
+  ok_res k iter_post (connect_mx (k_conns k) i todo s).
+Proof.
+  intros Hown. induction todo as [|cn todo IH]; intros i s c Htodo Hr Hsock; cbn [connect_mx].
+  - set (s' := if asks_tlsa (k_conns k) then log (EvTlsa 0) s else s).
+    assert (Hr' : Rel k s' c).
+    { unfold s'. destruct (asks_tlsa (k_conns k)); [|exact Hr].
+      apply (Rel_log k s c _ c (proj1 Hr)); [reflexivity|exact (proj2 Hr)]. }
+    exists c. split; [exact Hr'|]. unfold s'. destruct (asks_tlsa (k_conns k)); exact Hsock.
+  - set (s' := if asks_tlsa (k_conns k) then log (EvTlsa 0) s else s).
+    assert (Hr' : Rel k s' c).
+    { unfold s'. destruct (asks_tlsa (k_conns k)); [|exact Hr].
+      apply (Rel_log k s c _ c (proj1 Hr)); [reflexivity|exact (proj2 Hr)]. }
+    assert (Hs' : s_sock s' = false) by (unfold s'; destruct (asks_tlsa (k_conns k)); exact Hsock).
+    destruct (skipn_cons_nth (k_conns k) i cn todo no_conn (eq_sym Htodo)) as (Hnth & Hrest & Hlt).
+    assert (Hin : In cn (k_conns k)) by (rewrite <- Hnth; apply nth_In; exact Hlt).
+    rewrite <- (Hown cn Hin).
+    eapply ok_bind; [apply (conn_iter_ok k i cn s' c Hr' Hs' Hlt Hnth)|].
+    intros ok s1 c1 Hr1 Hp. destruct ok.
+    + exists c1. split; [exact Hr1|exact Hp].
+    + apply (IH (S i) s1 c1); [now rewrite Hrest|exact Hr1|exact Hp].
+Qed.
+
+Lemma final_Tr {A} k (P : A -> st -> cst -> Prop) (r : res A) :
+  ok_res k P r -> Tr k (match r with Ret _ s => s | Exit s => s | Stuck s => s end).
+Proof.
+  destruct r as [a s|s|s]; cbn [ok_res]; intros H; [|exact H|exact H].
+  destruct H as (c & Hr & _). exact (Rel_Tr _ _ _ Hr).
+Qed.
+
+Lemma tlsa_eqb_eq a : forall b, tlsa_eqb a b = true -> a = b.
+Proof.
+  induction a as [|[u r] a IH]; intros [|[v q] b] H; simpl in H; try discriminate; [reflexivity|].
+  apply andb_true_iff in H as [H H3]. apply andb_true_iff in H as [H1 H2].
+  apply N.eqb_eq in H1. apply Z.eqb_eq in H2. subst. f_equal. now apply IH.
+Qed.
+
+Lemma class_complement k :
+  class_wrong_host k = false -> forall cn, In cn (k_conns k) -> own_tlsa cn = tlsa_eff (k_conns k).
+Proof.
+  unfold class_wrong_host. intros H cn Hin. apply negb_false_iff in H.
+  rewrite forallb_forall in H. apply tlsa_eqb_eq. now apply H.
+Qed.
+
+Lemma Rel_init k : Rel k (init_st k) cst0.
+Proof.
+  split; [reflexivity|]. unfold Inv, init_st. cbn. repeat split. lia.
+Qed.
+
+Theorem run_Tr k : class_wrong_host k = false -> Tr k (final (run k)).
+Proof.
+  intros Hc. unfold final. apply (final_Tr k (fun _ _ _ => True)). unfold run.
+  eapply ok_bind.
+  - apply (connect_mx_ok k (class_complement k Hc) (k_conns k) 0 (init_st k) cst0 eq_refl (Rel_init k) eq_refl).
+  - intros ok s c Hr Hp. destruct ok.
+    + destruct Hp as (Hs & Hw). apply (shutdown_clean_ok k _ c).
+      apply nwrite_ok; [exact Hr|exact Hs|now apply can_write_not_failed].
+    + apply (shutdown_abort_ok k _ c). apply Rel_report. exact Hr.
+Qed.
+
+Theorem model_spec_ok k : class_wrong_host k = false -> spec_ok_C18 k (trace k) = true.
+Proof.
+  intros Hc. destruct (run_Tr k Hc) as (c & H). unfold spec_ok_C18, trace. now rewrite H.
+Qed.
